@@ -78,6 +78,8 @@ async def _ttl(loop, case, out: Outcome):
     expiry = None if params.ttl is None else vclock.secs(params.timestamp) + params.ttl.total_seconds()
     if kind == "retried":
         expiry = vclock.secs(ts) + ttl.total_seconds()
+    if kind == "rescheduled":
+        expiry = vclock.secs(now) + ttl.total_seconds()  # a reschedule is a new scheduling: the clock restarts there and then
     ids = [f"x{i + 1}" for i in range(case.get("copies", 1))]  # several adjacent messages with the same fate
     for id_ in ids:
         await b.enqueue(RoutingKey(topic="t0", queue="qt", priority=case["prio"], id_=id_), case["payload"], params)
